@@ -23,12 +23,13 @@ Record cfg := {
   fix_db_dead : bool;     (* DBIterator.materialize tests the delete bit, not only Value == nil *)
   fix_db_rseek : bool;    (* DBIterator.Seek in reverse seeks below every version of the key *)
   fix_txn_cf : bool;      (* TxnIterator.advance skips entries outside the default column family *)
-  fix_pend_cmp : bool     (* pending writes ordered with CompareKeys instead of bytes.Compare *)
+  fix_pend_cmp : bool;    (* pending writes ordered with CompareKeys instead of bytes.Compare *)
+  fix_get_empty : bool    (* Txn.Get no longer reads [Value == nil && Meta == 0] as not found *)
 }.
 
 Definition legacy : cfg :=
   {| fix_imm_order := false; fix_tomb_last := false; fix_db_dead := false; fix_db_rseek := false;
-     fix_txn_cf := false; fix_pend_cmp := false |}.
+     fix_txn_cf := false; fix_pend_cmp := false; fix_get_empty := false |}.
 
 (** * Sources in the order of lsm.NewIterators *)
 
@@ -315,19 +316,22 @@ Definition txn_list (c : cfg) (now : N) (s : state) (readTs : N) (pw : list rec)
 (** The code as it is now (after the repairs left in /repo, see /verif/fixes). *)
 Definition current : cfg :=
   {| fix_imm_order := true; fix_tomb_last := true; fix_db_dead := true; fix_db_rseek := true;
-     fix_txn_cf := true; fix_pend_cmp := true |}.
+     fix_txn_cf := true; fix_pend_cmp := true; fix_get_empty := true |}.
 
 (** * Txn.Get (the point read the listings are compared with)
 
     Pending write first; otherwise LSM.Get at readTs (the greatest version <=
-    readTs over every memtable and level, the first scanned copy winning ties).
-    When the winning copy comes from a table it went through
-    kv.SafeCopy(nil, value), which turns an empty value into a nil slice, and
-    Txn.Get treats [Value == nil && Meta == 0] as not found; a copy from a
-    memtable keeps a non-nil empty slice.  The memtables' best hit is replaced
-    by a table's only on a strictly greater version, so the winner is a
-    memtable's exactly when it has the version of the memtables' best. *)
-Definition txn_get (now : N) (s : state) (readTs : N) (pw : list rec) (bk : bytes) : option bytes :=
+    readTs over every memtable and level, the first scanned copy winning ties);
+    a tombstone or expired entry is not found.
+
+    Before its repair ([fix_get_empty] off) Txn.Get also read
+    [Value == nil && Meta == 0] as not found.  A copy served by a table went
+    through kv.SafeCopy(nil, value), which turns an empty value into a nil
+    slice, while a memtable keeps a non-nil empty slice; the memtables' best
+    hit is replaced by a table's only on a strictly greater version, so the
+    winner is a memtable's exactly when it has the version of the memtables'
+    best. *)
+Definition txn_get (c : cfg) (now : N) (s : state) (readTs : N) (pw : list rec) (bk : bytes) : option bytes :=
   match find (fun p => bytes_eqb (r_key p) bk) pw with
   | Some p => if deadb now p then None else Some (r_val p)
   | None =>
@@ -335,7 +339,7 @@ Definition txn_get (now : N) (s : state) (readTs : N) (pw : list rec) (bk : byte
       match get s bk readTs with
       | Some r =>
           let from_mem := match b1 with Some b => r_ver b =? r_ver r | None => false end in
-          if negb from_mem && negb (nonempty (r_val r)) && (r_meta r =? 0) then None
+          if negb (fix_get_empty c) && negb from_mem && negb (nonempty (r_val r)) && (r_meta r =? 0) then None
           else if deadb now r then None else Some (r_val r)
       | None => None
       end
